@@ -201,6 +201,18 @@ class DocGen:
                     self.stats["unwrap"] += 1
                     nbody = r.choice([0, 1, 1, 2, 2, 3])
                     wrappers = 2 if self.strict_unwrap else r.choice([2, 2, 2, 2, 1, 0])
+                    if self.strict_unwrap and r.random() < 0.25:
+                        # degenerate but legal: a single body line (possibly with an inline element), no wrapper lines:
+                        # the block cannot be unwrapped and no tag sits on a wrapper line
+                        if r.random() < 0.6:
+                            k2 = self.pick_kind(kinds)
+                            self.stats["inline"] += 1
+                            n2, a2 = self.tag_body(k2, False)
+                            out.append(ind + self.unit + self.word() + "(" + self.open_tag(n2, a2) + self.word() + self.close_tag(n2) + ");")
+                        else:
+                            out.append(self.code_line(ind + self.unit))
+                        out.append(ind + self.close_tag(name))
+                        continue
                     if wrappers >= 1:
                         out.append(ind + "if (" + self.word() + ") {")
                     if nbody:
@@ -278,6 +290,7 @@ def corpus_docs():
         ("<", ">", f"a\n<tl {e} unwrap-block>\n{{\n  <tl {e} unwrap-block>\n  {{\n    x\n  }}\n  </tl>\n}}\n</tl>\nb"),
         ("<", ">", f"a\n<tl {e} unwrap-block>\n{{\n  <tl {e} unwrap-block>\n  {{\n    <tl {e} unwrap-block>\n    {{\n      x\n    }}\n    </tl>\n  }}\n  </tl>\n}}\n</tl>\nb"),
         ("<", ">", f"  <tl {e}>\n  x\n  </tl>\n  foo"),
+        ("<", ">", f"a\n  q<tl {e} unwrap-block>\n{{ <tl {e}>\nx\n</tl>あ y\n    z\n}}\n</tl>\nb"),
         ("<", ">", f"\n<tl {e}>\nx\n</tl>\nfoo"),
         ("<", ">", f"<tl {f}>\na\n</tl>\n<tl {f}>\nb\n</tl>\n<tl {e}>\nc\n</tl>\n"),
         ("<", ">", f"<tl {e}>\n<tl {f}>\na\n</tl>\n<tl {f}>\nb\n</tl>\n</tl>\n<tl {f}>\n<tl {e}>\nc\n</tl>\n</tl>\n"),
